@@ -141,11 +141,12 @@ theorem tie_dryrun_steps :
   decide
 
 /-- round 6: in `Subtract` (and in its mirror `Accumulate`) the CPU argument and the field it is cancelled against are
-    each overwritten once, and neither update reads the other one's NEW value: both are computed from the overlap
+    overwritten (the fact is not vacuous) and neither update reads the other one's NEW value: both are computed from the overlap
     taken before either write (`PreAlloc.subtract` / `PreAlloc.accumulate`; `subtract_reordered_counterexample` is the
     shape with a stale read). -/
 theorem tie_dryrun_overlap_taken_once :
-    C06.preemptSubtractStaleReads = (2, 0) ∧ C06.preemptAccumulateStaleReads = (2, 0) := by
+    (0 < C06.preemptSubtractStaleReads.1 ∧ C06.preemptSubtractStaleReads.2 = 0) ∧
+    (0 < C06.preemptAccumulateStaleReads.1 ∧ C06.preemptAccumulateStaleReads.2 = 0) := by
   decide
 
 end KoordVerif.C06
